@@ -98,6 +98,8 @@ def call_list(tier, typed=False, spec=None):
                  if any(isinstance(x, str) for x in c[0])]
         # ... and strings that read like the repr of another call's arguments ('1' next to 1, "(1, 1)" next to (1, 1))
         extra += [(('1',), ()), (('1', 1), ()), ((1, '1'), ()), (("(1, 1)",), ()), (('None',), ()), ((None,), ()), (("'1'",), ())]
+        # ... and one container argument next to its elements passed separately
+        extra += [(((1, 2),), ()), (((),), ()), (((1,),), ()), (((1, 2), 1), ())]
     if tier == 'quick':
         return callmc.calls(values=(1, 2), maxpos=3, kwnames=('a', 'b', 'k', 'z'), maxkw=2) + extra
     return extra + callmc.calls(values=(1, 2), maxpos=4, kwnames=('a', 'b', 'c', 'k', 'm', 'z'), maxkw=2) + \
@@ -126,7 +128,7 @@ def _w_c0910(task):
         for form, W, prefix, ref, counter in forms:
             groups = collections.OrderedDict()     # binding -> list of (call, key)
             for (a, kw) in calls:
-                if ambiguous_by_design and any(isinstance(x, str) or x is None for x in a):
+                if ambiguous_by_design and any(isinstance(x, (str, tuple, list)) or x is None for x in a):
                     continue
                 args = prefix + a
                 b = callmc.bind_by_call(ref, a if form in ('boundmethod',) or form.startswith('partial') else args, kw)
@@ -255,6 +257,96 @@ def _c09_cause(frozen_keys):
     return 'other'
 
 
+def _default_cause(k1, k2, c1, c2, tol):
+    """cause predicate for the known finding 'a float default is not rounded': the two keys differ only in entries of
+    parameters that one of the two calls left to their default, and agree once those floats are rounded"""
+    try:
+        (a1, d1), (a2, d2) = eval(k1, {'NULL': 'NULL'}), eval(k2, {'NULL': 'NULL'})
+    except Exception:
+        return 'other'
+    if tol is None or a1 != a2 or set(d1) != set(d2):
+        return 'other'
+    names = ('a', 'b')
+    given1 = set(names[:len(c1[0])]) | set(n for n, _ in c1[1])
+    given2 = set(names[:len(c2[0])]) | set(n for n, _ in c2[1])
+    diff = [n for n in d1 if d1[n] != d2[n]]
+    if diff and all((n not in given1 or n not in given2) and isinstance(d1[n], float) and isinstance(d2[n], float)
+                    and round(d1[n], tol) == round(d2[n], tol) for n in diff):
+        return 'float-default-not-rounded'
+    return 'other'
+
+
+def _w_c09_decorators(task):
+    """C09 through each of the twelve decorator classes with a rounding tolerance: float arguments passed positionally
+    and by keyword (the key pipeline -- rounding, ignore, keymap -- is copied into every wrapper)"""
+    _, tier, mod, alg, tol, deep, defaults = task
+    import klepto
+    import klepto.safe
+    import klepto.keymaps as km
+    res = {'counts': collections.Counter(), 'violations': [], 'samples': [], 'nontrivial': 0, 'outcomes': set(),
+           'config': task[2:]}
+    # defaults that are already round at every tolerance used / defaults that rounding would change
+    bdef, kdef = (1.0, 5.0) if defaults == 'round' else (1.04, 2.55)
+    src = 'def f(a, b=%r, *args, k=%r, **kw):\n    CALLS[0] += 1\n    return (a, b, args, k, tuple(sorted(kw.items())))\n' % (bdef, kdef)
+    ns = {'CALLS': [0], '__name__': 'vfw_generated'}
+    exec(compile(src, '<c09 decorators>', 'exec'), ns)
+    f = ns['f']
+    m = klepto.safe if mod == 'safe' else klepto
+    kw = {'keymap': km.stringmap(flat=False), 'tol': tol, 'deep': deep}
+    if alg not in ('no', 'inf'):
+        kw['maxsize'] = 100000
+    W = getattr(m, alg + '_cache')(**kw)(f)
+    calls = callmc.calls(values=(1.04, 2.55, 3, bdef), maxpos=2, kwnames=('a', 'b', 'k', 'z'), maxkw=2)
+    groups = collections.OrderedDict()
+    for a, kwi in calls:
+        try:
+            b = f(*a, **dict(kwi))
+        except TypeError:
+            continue
+        res['counts']['evaluations'] += 1
+        try:
+            key = W.key(*a, **dict(kwi))
+        except Exception as e:
+            res['violations'].append(_v('C09', {'rule': 'key-raises', 'exc': type(e).__name__, 'form': 'decorator-sweep'},
+                                        '%s.%s_cache(tol=%r, deep=%r): key(%r, %r) raised %r' % (mod, alg, tol, deep, a, kwi, e),
+                                        {'task': list(task), 'calls': [[a, kwi]]}))
+            continue
+        g = groups.setdefault(typed_repr(b), (freeze(key), (a, kwi), []))     # (3 and 3.0 are different bindings here)
+        g[2].append((a, kwi))
+        if g[0] != freeze(key):
+            res['violations'].append(_v('C09', {'rule': 'equivalent-calls-different-keys', 'keymap': 'stringmap(flat=False)',
+                                                'cause': _default_cause(g[0], freeze(key), g[1], (a, kwi), tol),
+                                                'form': 'decorator-sweep %s.%s_cache' % (mod, alg)},
+                                        '%s.%s_cache(tol=%r, deep=%r): calls %r and %r bind identically (%r) but get keys %r / %r' % (
+                                            mod, alg, tol, deep, g[1], (a, kwi), b, g[0], freeze(key)),
+                                        {'task': list(task), 'calls': [g[1], (a, kwi)]}))
+    res['nontrivial'] = sum(1 for g in groups.values() if len(g[2]) >= 2)
+    res['counts']['programs'] += 1
+    # through the wrapper: the second spelling of a binding is not recomputed (not for no_cache, which keeps nothing)
+    if alg != 'no' and not res['violations']:
+        n0 = ns['CALLS'][0]
+        for b, g in groups.items():
+            for a, kwi in g[2]:
+                W(*a, **dict(kwi))
+        evals = ns['CALLS'][0] - n0
+        distinct = len(set(W.key(*g[1][0], **dict(g[1][1])) for g in groups.values()))
+        if evals != distinct:
+            res['violations'].append(_v('C09', {'rule': 'second-spelling-recomputed', 'keymap': 'stringmap(flat=False)', 'cause': 'other',
+                                                'form': 'decorator-sweep %s.%s_cache' % (mod, alg)},
+                                        '%s.%s_cache(tol=%r, deep=%r): %d distinct keys but %d evaluations' % (mod, alg, tol, deep, distinct, evals),
+                                        {'task': list(task), 'calls': []}))
+    res['counts'] = dict(res['counts'])
+    res['outcomes'] = []
+    res['config_summary'] = '%s.%s_cache tol=%r deep=%r defaults=%s [decorator sweep]' % (mod, alg, tol, deep, defaults)
+    return res
+
+
+def _w_dispatch(task):
+    if task[0] == 'C09-decorators':
+        return _w_c09_decorators(task)
+    return _w_c0910(task)
+
+
 def run_c0910(prop, tier, seed):
     rule = {
         'C09': 'signature grammar x call forms x keymaps; groups = calls the interpreter binds identically; non-trivial = groups with >= 2 spellings (counted per signature, form, keymap)',
@@ -268,7 +360,14 @@ def run_c0910(prop, tier, seed):
     tasks = [(prop, tier, s, False) for s in specs]
     tsp = [s for s in specs if s[0] <= 2 and s[3] != 'two' and len(s) == 5]
     tasks += [(prop, tier, s, True) for s in tsp]
-    for res in pool.run_configs(_w_c0910, tasks, seed=seed):
+    if prop == 'C09':
+        for mod in ('klepto', 'safe'):
+            for alg in ('no', 'inf', 'lfu', 'lru', 'mru', 'rr'):
+                for tol in (None, 1, 0):
+                    for deep in (False, True):
+                        for defaults in ('round', 'unround'):
+                            tasks.append(('C09-decorators', tier, mod, alg, tol, deep, defaults))
+    for res in pool.run_configs(_w_dispatch, tasks, seed=seed):
         rep.merge(res)
     rep.extra['signatures'] = len(specs)
     rep.extra['call_forms_per_signature'] = len(call_list(tier))
